@@ -106,8 +106,33 @@ class GarbageCollector:
         # collector deleted a file a committed snapshot references.
         protected_files = self._load_inflight_protection(inflight_timeout_ms)
 
-        # 2. Refresh metadata to get latest view
-        metadata = self.metadata_manager.refresh()
+        # 2. Load the metadata the hint names - exactly that file.
+        # refresh() resolves the version again and falls back to scanning when
+        # the hinted file LOOKS missing; a transient fault on that second probe
+        # (os.path.exists turns EIO/ESTALE into False) made the collector work
+        # from whatever the scan surfaced - an uncommitted leftover, an older
+        # version - and delete files the hinted version references. Any problem
+        # reading the hinted file aborts instead.
+        # The hint is read AGAIN here, after the markers (see step 1): a commit
+        # that landed since step 0 must be seen through its metadata.
+        try:
+            hinted = self.metadata_manager._read_version_hint()
+        except Exception as e:
+            raise GarbageCollectionAborted(
+                f"Aborting GC: cannot resolve the version hint: {e}. Nothing was deleted."
+            ) from e
+        if hinted is not None:
+            try:
+                metadata = self.metadata_manager._read_metadata_file(
+                    f"{self.metadata_manager.metadata_path}/{hinted[1]}"
+                )
+            except Exception as e:
+                raise GarbageCollectionAborted(
+                    f"Aborting GC: cannot read the metadata file '{hinted[1]}' named by the "
+                    f"version hint: {e}. Nothing was deleted."
+                ) from e
+        else:
+            metadata = self.metadata_manager.refresh()
         if not metadata:
             return stats
 
